@@ -93,7 +93,7 @@ Print Assumptions C20_exponent_coeff.
 (* ---- what the harness observes is the table: for accepted inputs the symbolic run returns psi's
    shape and every entry of the result comes from the one call of the table's kernel (a single run
    of the run-length encoding, C20_rle_repeat), made with
-   rhs = sign i H, t_span = (0, t), t_eval = [t] (solve_ivp) or exponent = sign i t H (others);
+   rhs = sign i H, t_span = (0, t), no t_eval (solve_ivp) or exponent = sign i t H (others);
    when solve_ivp returns no column, time_evolve raises ---- *)
 Theorem C20_observe_table : forall (m : mode) (f : bool) (n : nat) (s : list nat) (t : Q) (ncols : nat),
   prod_shape s = n ->
